@@ -1,7 +1,7 @@
 CONSTANTS
   OurChains = {"cali-a", "cali-b", "cali-old", "felix-old"}
   KCh = {"K1"}
-  Modes = {"insert", "append"}
+  Modes = {"insert"}
   OwnsAllSet = {FALSE}
   Rich = 0
   StartExtras = {{"cali-a", "cali-old", "felix-old", "other"}}
